@@ -472,7 +472,10 @@ T("C20", "eigh-transposed-metric", "iodata/utils.py", r"eigh\(sds, overlap\)", "
 
 _VOL_OLD = r"    nvecs = cellvecs\.shape\[0\]\n(?:.|\n)*?    raise ValueError\(\"Argument cellvecs should be of shape \(x, 3\), where x is in \{1, 2, 3\}\"\)\n"
 _VOL_NEW = "    cellvecs = np.atleast_2d(cellvecs)\n    if cellvecs.shape[0] not in (1, 2, 3):\n        raise ValueError(\"Argument cellvecs should be of shape (x, 3)\")\n    gram = np.dot(%s)\n    return np.sqrt(abs(np.linalg.det(gram)))\n"
-T("C20", "volume-as-gram-determinant", "iodata/utils.py", _VOL_OLD, _VOL_NEW % "cellvecs, cellvecs.T")
+# (the root of the Gram determinant is the right quantity, but for two nearly dependent vectors the 2 x 2 determinant
+# is a difference of large squares: since batch 9 -- seed C20p -- the accuracy on such pairs is part of C20-R3, and this
+# former twin is a mutant)
+M("C20", "volume-as-gram-determinant", "iodata/utils.py", _VOL_OLD, _VOL_NEW % "cellvecs, cellvecs.T", "C20-R3")
 M("C20", "volume-gram-of-columns", "iodata/utils.py", _VOL_OLD, _VOL_NEW % "cellvecs.T, cellvecs", "C20-R3")
 M("C20", "volume-signed-triple-product", "iodata/utils.py", r"return abs\(np\.linalg\.det\(cellvecs\)\)", "return np.dot(cellvecs[0], np.cross(cellvecs[1], cellvecs[2]))", "C20-R3")
 T("C20", "volume-abs-triple-product", "iodata/utils.py", r"return abs\(np\.linalg\.det\(cellvecs\)\)", "return abs(np.dot(cellvecs[0], np.cross(cellvecs[1], cellvecs[2])))")
